@@ -230,12 +230,66 @@ func Main(tier, replay string) {
 			run.Outcome("compiled under "+flName, 1)
 		}
 	}
+	// ---- overwrite histories through the real CLI: the file at routesConfig.outputPath after any sequence of runs --
+	if replay == "" {
+		var pick []scen.Case
+		seenKind := map[string]bool{}
+		for _, c := range sig.Cases {
+			if k := c.Features["kind"]; c.Features["family"] == "sig-1param" && c.Features["validate"] == "" && c.Features["alias"] == "" && c.Features["ptr"] == "false" && !seenKind[k] && len(pick) < 8 {
+				seenKind[k] = true
+				pick = append(pick, c)
+			}
+		}
+		rnc := &scen.Runner{Scratch: scratch, BaseCfg: fam.DefaultCfg}
+		p := rnc.BuildProject(pick)
+		all, _ := p.Config["commonConfig"].(map[string]any)["controllerGlobs"].([]string)
+		mkCfg := func(globs []string, engine string) map[string]any {
+			c := scen.CloneConfig(p.Config)
+			scen.Set(c, "commonConfig.controllerGlobs", globs)
+			scen.Set(c, "routesConfig.engine", engine)
+			return c
+		}
+		alphabet := []scen.OWStep{
+			{Name: "all-controllers/gin", Config: mkCfg(all, "gin"), Args: []string{"generate", "routes"}},
+			{Name: "one-controller/gin", Config: mkCfg(all[:1], "gin"), Args: []string{"generate", "routes"}},
+			{Name: "all-controllers/chi", Config: mkCfg(all, "chi"), Args: []string{"generate", "routes"}},
+			{Name: "one-controller/fiber/spec-and-routes", Config: mkCfg(all[:1], "fiber"), Args: []string{"generate", "spec-and-routes"}},
+		}
+		const routesPath = "dist/routes/gleece.routes.go"
+		initials := []scen.OWInitial{{Name: "no file"}, {Name: "a longer stale file", Files: map[string]string{routesPath: "package routes\n\n" + strings.Repeat("// stale\n", 40000)}},
+			{Name: "a shorter stale file", Files: map[string]string{routesPath: "package routes\n"}}}
+		depth := 2
+		if tier == "thorough" {
+			depth = 3
+		}
+		obs := scen.RunOverwriteHistories(scratch, p, alphabet, initials, depth, []string{routesPath})
+		for _, ob := range obs {
+			run.AddStates(1)
+			run.AddTransitions(int64(len(ob.Steps)))
+			run.AddValidated(1)
+			got, want := ob.Files[routesPath], ob.Fresh[routesPath]
+			feat := map[string]string{"family": "overwrite-history", "initial": ob.Initial, "last-step": ob.Steps[len(ob.Steps)-1], "history-length": fmt.Sprint(len(ob.Steps))}
+			cs := map[string]any{"id": "overwrite-history", "initial": ob.Initial, "steps": ob.Steps, "exit": ob.Exit}
+			switch {
+			case ob.Exit[len(ob.Exit)-1] != 0 || want == "":
+				run.Report(core.Violation{Oracle: "accepted-project-writes-its-routes-file", Features: feat, What: fmt.Sprintf("history %v from %q: the last command exited %d (fresh-tree file empty=%v): %s", ob.Steps, ob.Initial, ob.Exit[len(ob.Exit)-1], want == "", firstLines(ob.Output, 3)), Case: cs})
+			case got != want:
+				what := fmt.Sprintf("history %v from %q: the file at outputPath (%d bytes) differs from what the same command writes into an empty tree (%d bytes)", ob.Steps, ob.Initial, len(got), len(want))
+				if _, err := rast.Parse(got); err != nil {
+					what += "; it is not valid Go: " + err.Error()
+				}
+				run.Report(core.Violation{Oracle: "file-at-output-path-is-what-this-run-generates", Features: feat, What: what, Case: cs})
+			}
+			run.Outcome("overwrite-history: "+ob.Initial+" -> routes file as a fresh run writes it="+fmt.Sprint(got == want), 1)
+		}
+		run.Set("overwrite_histories", len(obs))
+	}
 	run.Set("routes_files_checked", files)
 	run.Set("scenario_runs_compiled_on_all_engines", compiled)
 	run.Set("scenario_runs_rejected", rejected)
 	run.Sample(cases[0])
 	run.Sample(cases[len(cases)-1])
-	run.Bound = fmt.Sprintf("%d scenarios (signature and type families, %d adversarial identifier/package-name/layout cases) x 5 engines x %d flag sets (validateTopLevelOnlyEnum, generateEnumValidator, validateResponsePayload)", len(cases), len(adversarial()), len(flagSets))
+	run.Bound = fmt.Sprintf("%d scenarios (signature and type families, %d adversarial identifier/package-name/layout cases) x 5 engines x %d flag sets (validateTopLevelOnlyEnum, generateEnumValidator, validateResponsePayload); through the real CLI every history of <= 2 (thorough: 3) commands over 4 (controller set, engine, command) letters from 3 initial states of the routes file", len(cases), len(adversarial()), len(flagSets))
 	run.Rule = "state = (scenario, engine, flag set); transition = one routes generation + gofmt check + real `go build` of the generated packages with the user's controllers and authorization package; validated = generated files checked"
 	run.Assumptions = []string{"a scenario whose route generation returns an error is allowed (rejected rather than producing a file)"}
 	os.RemoveAll(scratch)
